@@ -388,7 +388,11 @@ fn cmd_run(args: &[String]) -> R<i32> {
     let mut i = start;
     let mut done = 0;
     while done < count && t0.elapsed().as_secs_f64() < secs {
-        let run_seed = derive(seed, &check, i);
+        // --exact <run seed>: one run with this very run seed (as printed in reports)
+        let run_seed = match arg(args, "--exact").and_then(|s| s.parse::<u64>().ok()) {
+            Some(x) => x,
+            None => derive(seed, &check, i),
+        };
         i += stride;
         done += 1;
         let out = match run_one(&tier, &check, run_seed, &tmp, None) {
